@@ -23,7 +23,7 @@ RULE = (
 ASSUMPTIONS = [
     "finality is judged at step boundaries (handler granularity): a status that is set and overwritten inside one response handler is not an observation",
     "matched size may change after completion only through the void that C04/C09 prescribe on a runner removal",
-    "live-exchange interleavings (responses vs order-stream updates) are explored by the C11/C12 checks on the live double",
+    "live world: the C11 schedule generator on the live double with lifecycle invariants after every operation; 'matched size no longer changes' is judged against the exchange (a locally complete order whose bet still rests executable can still be matched)",
 ]
 CHECKS = ("lifecycle",)
 
@@ -121,13 +121,84 @@ def sub_objects(col, budget, seed, tier, shard, nshards):
     run_given(col, obj_case(), check_obj, budget, seed, tier, "order-objects")
 
 
+# ---- live world: lifecycle over generated schedules on the live double (C11 schedule generator) -------------
+
+LEGAL = {
+    None: {"PENDING", "VIOLATION"},
+    "PENDING": {"EXECUTABLE", "EXECUTION_COMPLETE"},
+    "EXECUTABLE": {"CANCELLING", "UPDATING", "REPLACING", "EXECUTION_COMPLETE"},
+    "CANCELLING": {"EXECUTABLE", "EXECUTION_COMPLETE"},
+    "UPDATING": {"EXECUTABLE", "EXECUTION_COMPLETE"},
+    "REPLACING": {"EXECUTABLE", "EXECUTION_COMPLETE"},
+}
+
+
+def check_live(c):
+    from flumine.order import order as order_mod
+    from . import c11
+
+    transitions = []
+    orig = order_mod.BaseOrder._update_status
+
+    def rec(order, status, _orig=orig):
+        prev = order.status
+        _orig(order, status)
+        transitions.append((order, prev.name if prev else None, status.name))
+
+    seen_complete = {}
+
+    def after_op(d, op):
+        for (o, prev, new) in transitions:
+            if prev != new and new not in LEGAL.get(prev, set()):
+                raise Violation("illegal-transition", (str(prev), new, "live"), "order status went %s -> %s after %s" % (prev, new, op["op"]), c)
+        transitions.clear()
+        m = d.lab.market(0)
+        if m is None:
+            return
+        for o in m.blotter:
+            n = sum(1 for (fn, args) in d.lab.pool.queue for x in args[0]._orders if x is o)
+            if n > 1:
+                raise Violation("two-operations-in-flight", ("live",), "order is in %d queued packages" % n, c)
+            st_ = o.status.name if o.status else None
+            if id(o) in seen_complete and st_ in ("PENDING", "EXECUTABLE", "CANCELLING", "UPDATING", "REPLACING"):
+                raise Violation("completed-order-live-again", (seen_complete[id(o)], st_, "live"), "order observed complete is now %s" % st_, c)
+            if o.complete and "PENDING" in [x.name for x in o.status_log]:
+                seen_complete.setdefault(id(o), st_)
+                b = d.exchange.bets.get(str(o.bet_id)) if o.bet_id else None
+                if b is not None and b.status == "EXECUTABLE":
+                    cr = o.responses.cancel_responses
+                    cause = "other"
+                    if cr and cr[-1].status == "SUCCESS" and cr[-1].instruction.size_reduction:
+                        last = [h for h in b.hist if h[0] == "partial-cancel"][-1:]
+                        cause = "partial-cancel-equal-to-remainder-after-stream-update" if last and abs(last[0][1] - last[0][2]) < 1e-9 else "partial-cancel-other"
+                    raise Violation("reported-complete-while-resting-at-exchange", (cause,),
+                                    "order %s reported %s after %s but bet %s still rests executable at the exchange (%s): its matched size can still change" % (
+                                        o.id, st_, op["op"], b.bet_id, b.view()), c)
+        d.classes.add("live-lifecycle-checked")
+
+    order_mod.BaseOrder._update_status = rec
+    try:
+        return c11.check(c, after_op=after_op, convergence=False)
+    finally:
+        order_mod.BaseOrder._update_status = orig
+
+
+def sub_live(col, budget, seed, tier, shard, nshards):
+    from . import c11
+
+    run_given(col, c11.schedule(tier), check_live, budget, seed, tier, "live")
+
+
 def subchecks(tier):
     q = tier == "quick"
-    return [SubCheck("sim-machine", sub_machine, 1600 if q else 40000), SubCheck("order-objects", sub_objects, 2000 if q else 50000)]
+    return [SubCheck("sim-machine", sub_machine, 1600 if q else 40000), SubCheck("order-objects", sub_objects, 2000 if q else 50000),
+            SubCheck("live", sub_live, 5000 if q else 200000)]
 
 
 def replay(case, sub=None):
     if isinstance(case, list):
         replay_trace(SimWorld, CHECKS, case)
+    elif "ops" in case:
+        check_live(case)
     else:
         check_obj(case)
